@@ -173,7 +173,16 @@ def selOf (want : Option (List (Nat × Nat))) (k : Nat × Nat) : Bool :=
 
 def tagAt (i : Nat) : Str := Gen.requiredTags.getD i []
 
-def parseSections (secs : Sections) (want : Option (List (Nat × Nat))) : M Chart :=
+/-- everything that does not depend on the track selection: required-section check, metadata, sync, events -/
+structure Shared where
+  metad : List FieldVal
+  res : Int
+  sync : Sync
+  events : Events
+  unparsable : Nat
+  deriving Repr, DecidableEq
+
+def parseShared (secs : Sections) : M Shared :=
   if !(Gen.requiredTags.all fun t => secs.any (·.1 == t)) then .error .valueError
   else
     lookup secs (tagAt 0) >>= fun songLines =>
@@ -182,8 +191,12 @@ def parseSections (secs : Sections) (want : Option (List (Nat × Nat))) : M Char
     parseSync (resOf metad) syncLines >>= fun sy =>
     lookup secs (tagAt 2) >>= fun evLines =>
     parseEvents (resOf metad) sy.1.bpms evLines >>= fun ev =>
-    routeTracks (resOf metad) sy.1.bpms (selOf want) secs >>= fun tr =>
-      .ok ⟨metad, resOf metad, sy.1, ev.1, tr.1.foldl putTrack [], sy.2 + ev.2 + tr.2.1, tr.2.2⟩
+      .ok ⟨metad, resOf metad, sy.1, ev.1, sy.2 + ev.2⟩
+
+def parseSections (secs : Sections) (want : Option (List (Nat × Nat))) : M Chart :=
+  parseShared secs >>= fun sh =>
+    routeTracks sh.res sh.sync.bpms (selOf want) secs >>= fun tr =>
+      .ok ⟨sh.metad, sh.res, sh.sync, sh.events, tr.1.foldl putTrack [], sh.unparsable + tr.2.1, tr.2.2⟩
 
 /-- `Chart.from_file(io.StringIO(text), want_tracks = want)` -/
 def parseChart (text : Str) (want : Option (List (Nat × Nat))) : M Chart :=
